@@ -98,6 +98,10 @@ func allSpecs() []*HarnessSpec {
 		{Name: "dbg_funcs", Pkg: "trie", Property: "DBG", Witness: 1, Quick: []Grid{{"x": {0}}}},
 		{Name: "dbg_build", Pkg: "trie", Property: "DBG2", Witness: 2,
 			Quick: []Grid{{"opt": {16}, "lq": {2}}}},
+		// ---- verified summary (runs with every property that executes the builder) ----
+		{Name: "k_path_summary", Pkg: "trie", Property: "*", NoSummaries: true, Exhaustive: true, Witness: 1,
+			Quick: []Grid{{"size": {17, 257}}},
+			Note:  "licenses the engine's summary of bmtree.PathToIndex: real PathToIndex(17|257, path) = 0 for the empty path and 1+v for a full path with bits v (all v), executed with the summary switched off"},
 		// ---- C08 kernel ----
 		{Name: "k_encstep", Pkg: "trie", Property: "C08", Exhaustive: true, Witness: 1,
 			Quick: []Grid{{"x": {0}}},
